@@ -1070,3 +1070,5 @@ func (m *simConnMgr) decayAll(times int) {
 		}
 	}
 }
+
+func maddr(ip string) ma.Multiaddr { return ma.StringCast(fmt.Sprintf("/ip4/%s/tcp/4001", ip)) }
